@@ -159,6 +159,7 @@ func runC12(p *load.Program, r *oblig.Report) {
 	c12PoolUpdateOrder(p, r)
 	c12SplitGroups(p, r)
 	c12UpdatePublishes(p, r)
+	c12CoordinatorError(p, r)
 	// ListOffsets is routed by the leader of its first partition: Split must leave one partition per sub-request (C19.R3)
 	shareRules(r, "C12", "C12.R11 list-offsets requests are split per partition leader", func(sub *oblig.Report) { c19SplitMerge(p, sub) })
 	c12LegacyNegotiate(p, r, "C12.R2 version-selection table")
@@ -1191,4 +1192,45 @@ func c12UpdatePublishes(p *load.Program, r *oblig.Report) {
 		}
 		r.Check(ok, rule, "kafka.(*connPool).update "+what.name+" on every path of a successful refresh", p.Pos(upd.Pos()), "state.metadata, state.layout = metadata, layout; defer p.setState(state)", where)
 	}
+}
+
+// c12CoordinatorError: R12 — the answer to FindCoordinator names a broker only when its error code is zero (with
+// COORDINATOR_NOT_AVAILABLE the node id is -1, which sendRequest would take for "any broker"): the node id is used
+// only on paths that tested the error code.
+func c12CoordinatorError(p *load.Program, r *oblig.Report) {
+	const rule = "C12.R12 a failed coordinator lookup is not taken for an answer"
+	send := p.Func("", "(*connPool).sendRequest")
+	if send == nil {
+		r.Lost(rule, "kafka.(*connPool).sendRequest")
+		return
+	}
+	n := 0
+	var bad []string
+	an.EachInstr(send, func(ins ssa.Instruction) {
+		var fa *ssa.FieldAddr
+		if ld, ok := ins.(*ssa.UnOp); ok && ld.Op == token.MUL {
+			fa, _ = ld.X.(*ssa.FieldAddr)
+		}
+		if fa == nil || an.FieldName(fa.X.Type(), fa.Field) != "NodeID" || !an.NamedIs(deref(fa.X.Type()), load.ModPath+"/protocol/findcoordinator", "Response") {
+			return
+		}
+		n++
+		tested := false
+		for d, child := ins.Block().Idom(), ins.Block(); d != nil; d, child = d.Idom(), d {
+			_, ci := an.IfCond(d)
+			if ci == nil {
+				continue
+			}
+			if strings.HasSuffix(clean(an.Shape(ci.X)), ".ErrorCode") && strings.Contains(clean(an.Shape(ci.X)), "findcoordinator") || strings.HasSuffix(clean(an.Shape(ci.X)), ".(*Response).ErrorCode") {
+				if e := ci.Edge(token.EQL); e >= 0 && edgeControls(d, e, child) {
+					tested = true
+				}
+			}
+		}
+		if !tested {
+			bad = append(bad, "NodeID used at "+p.Pos(ins.Pos())+" without a test of ErrorCode")
+		}
+	})
+	r.Check(n >= 2 && len(bad) == 0, rule, "kafka.(*connPool).sendRequest uses the coordinator's node id only when the lookup carried no error code", p.Pos(send.Pos()),
+		"if res.ErrorCode != 0 { return reject(Error(res.ErrorCode)) }; brokerID = res.NodeID", strings.Join(bad, "; "))
 }
